@@ -10,7 +10,10 @@ Literal transcription over exact rationals:
 * `referenceOpsPerms`     `reference_symmetry_operations_and_permutations`: FSG (types I–III; NB the code passes
                           `mag_symprec` as the translation tolerance of `family_space_group_from_magnetic_space_group`)
                           or XSG (type IV) with the permutations of the operations kept;
-* the reference cell      `StandardizedCell::new(prim cell, ref ops, ref perms, reference space group, symprec, epsilon)` is the
+* `antiAverage`           (type IV only, repair 1c2f2a9) the positions of the primitive magnetic cell are first averaged over the
+                          first magnetic operation with identity rotation and time reversal:
+                          `x_i := x_i + wrap(x_{π⁻¹ i} + t − x_i) / 2`;
+* the reference cell      `StandardizedCell::new(that cell, ref ops, ref perms, reference space group, symprec, epsilon)` is the
                           stage model S6 (`StageStd.run`) with its two checked oracle parameters (`rot`: the QR rotation,
                           `implTlinear`: the monoclinic tie);
 * `symmetrizeMoments`     `symmetrize_magnetic_moments`: Reynolds average over ALL magnetic operations of
@@ -82,6 +85,55 @@ def familyFragile (mops : List MOpQ) (msp : Rat) : Bool :=
   let fh := family mops hi
   !(f.contained == fl.contained && f.contained == fh.contained)
 
+/-! ### averaging over the anti-translation (type IV) -/
+
+/-- `.zip(permutations).find(|(mops, _)| mops.time_reversal && mops.operation.rotation == identity)`. -/
+def findAnti (mops : List MOpQ) (perms : List (List Nat)) : Option (MOpQ × List Nat) :=
+  (mops.zip perms).find? fun mp => mp.1.tr && mp.1.rot == M3.one
+
+/-- Wrapped displacement of site `i` under the translation `t` paired with the permutation `p`:
+`x[p⁻¹ i] + t − x[i]` minus its rounding. -/
+def antiDisp (t : Q3) (p : List Nat) (pos : List Q3) (i : Nat) : Q3 :=
+  (((pos.getD (permInv p i) Q3.zero).add t).sub (pos.getD i Q3.zero)).wrap
+
+/-- `x_i + frac_displacement / 2` for every site (all reads are of the old positions). -/
+def antiAverageWith (t : Q3) (p : List Nat) (pos : List Q3) : List Q3 :=
+  (List.range pos.length).map fun i => (pos.getD i Q3.zero).add (Q3.smul (1 / 2) (antiDisp t p pos i))
+
+/-- The positions handed to `StandardizedCell::new`. -/
+def antiAverage (ctype : Nat) (mops : List MOpQ) (perms : List (List Nat)) (pos : List Q3) : List Q3 :=
+  if ctype = 4 then
+    match findAnti mops perms with
+    | some (o, p) => antiAverageWith o.trans p pos
+    | none => pos
+  else pos
+
+/-- Some component of a displacement of the anti-translation average is within 1e-9 of `±1/2` before wrapping. -/
+def antiRoundFragile (t : Q3) (p : List Nat) (pos : List Q3) : Bool :=
+  (List.range pos.length).any fun i => (antiDisp t p pos i).toList.any fun e => decide (rabs e > 1 / 2 - e9)
+
+/-- The ideal anti-translation: `round(2 t) / 2`. -/
+def idealHalf (t : Q3) : Q3 := ⟨(ratRound (2 * t.x) : Rat) / 2, (ratRound (2 * t.y) : Rat) / 2, (ratRound (2 * t.z) : Rat) / 2⟩
+
+/-- Hypothesis of `anti_average_invariant`: `p` is an involutive bijection of the `n` sites and the two wrapped
+displacements of every pair `i, p(i)` add up to less than `1/2` in every component. -/
+def antiHyp (t : Q3) (p : List Nat) (pos : List Q3) : Bool :=
+  isPerm pos.length p &&
+  (List.range pos.length).all fun i =>
+    p.getD (p.getD i 0) 0 == i && absLt3 ((antiDisp t p pos i).add (antiDisp t p pos (p.getD i 0))) (1 / 2)
+
+/-- `x[p i] = x[i] + s + integer` exactly, for all sites. -/
+def translationInvariant (s : Q3) (p : List Nat) (pos : List Q3) : Bool :=
+  (List.range pos.length).all fun i => isInt3 (((pos.getD (p.getD i 0) Q3.zero).sub (pos.getD i Q3.zero)).sub s)
+
+/-- Hypothesis of `reynolds_commuting_translation`: the translation `s` with site permutation `q` commutes with every
+operation: `(R_h − 1) s ∈ ℤ³` and `π_h ∘ q = q ∘ π_h`. -/
+def translationCommutes (ops : List OpQ) (perms : List (List Nat)) (s : Q3) (q : List Nat) (n : Nat) : Bool :=
+  isPerm n q &&
+  (ops.zip perms).all fun op =>
+    isInt3 ((op.1.rot.applyQ s).sub s) &&
+    (List.range n).all fun i => op.2.getD (q.getD i 0) 0 == q.getD (op.2.getD i 0) 0
+
 /-! ### cells -/
 
 /-- `UnimodularTransformation::inverse`: `(P⁻¹, −P⁻¹ p)`. -/
@@ -126,6 +178,11 @@ structure Result where
   momInvariant : Bool
   /-- the moments of the primitive standardized cell are exactly invariant under the operations carried into its frame -/
   stdMomInvariant : Bool
+  /-- type IV: hypotheses of `mag_positions_invariant` for the anti-translation (`antiHyp` on the input positions,
+  `translationCommutes` for the ideal anti-translation in the standardized primitive setting); `true` for other types -/
+  hypAnti : Bool := true
+  /-- type IV: the positions of the primitive standardized cell are exactly invariant under the ideal anti-translation -/
+  antiInvariant : Bool := true
 
 inductive Outcome
   | ok (r : Result)
@@ -172,9 +229,16 @@ def runE (inp : Input) : Except Outcome Result := do
   let t ← orThrow (magType? inp.uni) (.err "MagneticStandardizationError" [])
   let ctype := t.constructType
   let (refOps, refPerms) := referenceOpsPerms inp.mops inp.perms ctype inp.msp
-  let frag0 := if ctype ≠ 4 && familyFragile inp.mops inp.msp then ["family-threshold"] else []
+  let fragF := if ctype ≠ 4 && familyFragile inp.mops inp.msp then ["family-threshold"] else []
+  -- type IV: average over the anti-translation first
+  let anti := if ctype = 4 then findAnti inp.mops inp.perms else none
+  let pos1 := antiAverage ctype inp.mops inp.perms inp.pos
+  let fragA := match anti with
+    | some (o, p) => if antiRoundFragile o.trans p inp.pos then ["anti-round-half"] else []
+    | none => []
+  let frag0 := fragF ++ fragA
   -- `StandardizedCell::new` on the reference group
-  let ref ← match StageStd.run { lat := inp.lat, pos := inp.pos, num := inp.num, ops := refOps, perms := refPerms, hall := hall,
+  let ref ← match StageStd.run { lat := inp.lat, pos := pos1, num := inp.num, ops := refOps, perms := refPerms, hall := hall,
                                  P := inp.P, p := inp.p, symprec := inp.symprec, epsilon := inp.epsilon, rot := inp.rot,
                                  implTlinear := inp.implTlinear } with
     | .ok r => pure r
@@ -201,6 +265,16 @@ def runE (inp : Input) : Except Outcome Result := do
   let stdNum := transformCellNum M ref.primNum
   -- the operations carried into the frame of the primitive standardized cell: Cartesian rotations `Q C Q⁻¹`
   let actsStd := acts.map fun a => ((Q.mul a.1).mul Q.inv, a.2)
+  -- the ideal anti-translation in the standardized primitive setting, and the facts about it
+  let (hypAnti, antiInv) := match anti with
+    | some (o, p) =>
+      let s := ref.primTrans.linv.applyQ (idealHalf o.trans)
+      let hs := match HallSymbol.new ((hallTable[hall - 1]?.map (·.hallSymbol)).getD "") with
+        | some h => (h.primitiveTraverse.getD []).map StageStd.hopToOpQ
+        | none => []
+      (antiHyp o.trans p inp.pos && translationCommutes hs ref.primStdPerms s p inp.pos.length,
+       translationInvariant s p ref.primPos)
+    | none => (true, true)
   pure {
     ctype := ctype
     ref := ref
@@ -212,7 +286,9 @@ def runE (inp : Input) : Except Outcome Result := do
     fragile := frag0 ++ ref.fragile
     hypMom := magCompat inp.mops inp.perms inp.mom.length
     momInvariant := momentsInvariant inp.collinear inp.axial acts inp.perms sym
-    stdMomInvariant := momentsInvariant inp.collinear inp.axial actsStd inp.perms primMom }
+    stdMomInvariant := momentsInvariant inp.collinear inp.axial actsStd inp.perms primMom
+    hypAnti := hypAnti
+    antiInvariant := antiInv }
 
 def run (inp : Input) : Outcome :=
   match runE inp with
